@@ -1069,10 +1069,12 @@ static int vp_poll_scan(struct pollfd *fds, unsigned long n)
           re |= POLLHUP;
         }
       } else if (vp_of_kind[o] == VP_K_PIPE_W) {
+        /* as Linux does: POLLOUT whenever there is room, POLLERR (also) when no reader is left */
+        if (vp_pp_len[p] < VP_CAP && (fds[i].events & POLLOUT)) {
+          re |= POLLOUT;
+        }
         if (!vp_pipe_has_reader(p)) {
           re |= POLLERR;
-        } else if (vp_pp_len[p] < VP_CAP && (fds[i].events & POLLOUT)) {
-          re |= POLLOUT;
         }
       } else {
         re = fds[i].events & (POLLIN | POLLOUT);
